@@ -1,7 +1,7 @@
 (* C17 — correspondence / property evaluation on what the implementation returned.
    Executable only. *)
 From Coq Require Import List ZArith Bool String Ascii.
-From GZ Require Export C17.Model C17.Hyps.
+From GZ Require Export C17.Model C17.Hyps C17.Shapes.
 From GZ Require Import C08.Check.
 Import ListNotations.
 Open Scope Z_scope.
@@ -13,9 +13,21 @@ Record ob3 := mkOb3 { oj : ob; oy : ob; ot : ob }.
 (* the tree a front end handed to LoadFromJsonBytes (None: the front end rejected the text) *)
 Record mid3 := mkMid3 { mj : option jv; my : option jv; mt : option jv }.
 
-(* conf.Load by file extension, conf.MustLoad (where Load succeeded), conf.FillDefault *)
+(* conf.Load by file extension, conf.MustLoad (where Load succeeded), conf.FillDefault, the
+   deprecated LoadConfig* wrappers, conf.LoadProperties with / without UseEnv, and the white-box
+   view of LoadFromJsonBytes (harness/overlay/conf): buildFieldsInfo's tree and the map that
+   toLowerCaseKeyMap hands to the unmarshaller, for the document and for its twin *)
 Record extra := mkExtra { x_byext : list (string * ob); x_must : list (string * ob); x_fill : ob;
-                          x_envref : option ob3 (* LoadFrom*Bytes of the expanded texts *) }.
+                          x_envref : option ob3 (* LoadFrom*Bytes of the expanded texts *);
+                          x_depr : list (string * ob);
+                          x_props : list (string * string * option string * option string)
+                                    (* key, value as written, GetString without / with UseEnv *);
+                          x_info : option (option finfo);
+                          x_lc : option jv; x_lc2 : option jv }.
+
+(* a decoded value of a type outside C08's model: its canonical dump, compared as text *)
+Inductive obx := XOk (dump : string) | XErr | XPanic.
+Record obx3 := mkObx3 { xj : obx; xy : obx; xt : obx }.
 
 Inductive case :=
 | CaseLoad (T : fields) (d : doc)
@@ -23,7 +35,12 @@ Inductive case :=
            (env : option (list (string * string)))    (* environment of the conf.Load runs *)
            (mid : mid3) (mid2 : option mid3) (midenv : option mid3)
            (load : ob3) (load2 : option ob3) (envon envoff : option ob3) (ex : option extra)
-| CaseStd (T : cfields) (d : doc) (mp st : ob).       (* mapping.UnmarshalJsonBytes, encoding/json *)
+| CaseStd (T : cfields) (d : doc) (mp st : ob)        (* mapping.UnmarshalJsonBytes, encoding/json *)
+| CaseShape (T : xfields) (d : doc) (d2 : option doc)
+            (info : option (option finfo))             (* white-box: buildFieldsInfo (inner None: error) *)
+            (lc lc2 : option jv)                       (* white-box: toLowerCaseKeyMap of the JSON rendering *)
+            (load load2 : option obx3)                 (* the three loaders, when the shape is loaded at all *)
+| CaseBad (T : fields) (load : ob3).                   (* three malformed texts *)
 
 Definition ob_of (r : result gval) : ob :=
   match r with Ok v => OOk v | Err _ => OErr | Panic => OPanic end.
@@ -75,11 +92,40 @@ Definition ob3_eqb (a b : ob3) : bool :=
 
 Definition opt_all {A} (o : option A) (f : A -> bool) : bool := match o with Some a => f a | None => true end.
 
+Definition obx_eqb (a b : obx) : bool :=
+  match a, b with
+  | XOk v, XOk w => String.eqb v w
+  | XErr, XErr | XPanic, XPanic => true
+  | _, _ => false
+  end.
+Definition obx_panics (a : obx) : bool := match a with XPanic => true | _ => false end.
+Definition obx3_eqb (a b : obx3) : bool := obx_eqb (xj a) (xj b) && obx_eqb (xy a) (xy b) && obx_eqb (xt a) (xt b).
+Definition obx3_same (a : obx3) : bool := obx_eqb (xj a) (xy a) && obx_eqb (xj a) (xt a).
+Definition obx3_nopanic (a : obx3) : bool := negb (obx_panics (xj a) || obx_panics (xy a) || obx_panics (xt a)).
+
+Definition ostr_eqb (a b : option string) : bool :=
+  match a, b with Some x, Some y => String.eqb x y | None, None => true | _, _ => false end.
+
+Definition dmap_of (d : doc) : dmap := match d with DMap m => m | _ => DMnil end.
+
+(* the white-box view agrees with the model of buildFieldsInfo / toLowerCaseKeyMap *)
+Definition lc_model (i : option finfo) (d : doc) : option jv :=
+  option_map (fun i' => JObj (lc_obj i' (shape_map rf_go FJson (dmap_of d)))) i.
+
+Definition lc_agrees (i : option finfo) (d : doc) (seen : option jv) : bool :=
+  match seen, lc_model i d with
+  | Some j, Some j' => jv_eqb j' j
+  | Some _, None => false
+  | None, _ => true
+  end.
+
 (* the generator only emits documents representable in all three formats *)
 Definition in_scope (c : case) : bool :=
   match c with
   | CaseLoad T d d2 env _ _ _ _ _ _ _ _ => rep_top d && opt_all d2 rep_top
   | CaseStd T d _ _ => match d with DMap _ => true | _ => false end
+  | CaseShape T d d2 _ _ _ _ _ => rep_top d && opt_all d2 rep_top
+  | CaseBad _ _ => true
   end.
 
 (* the model (with the concrete re-rendering [rf_go]) reproduces what the implementation did:
@@ -108,10 +154,26 @@ Definition agrees (c : case) : bool :=
          end
       && opt_all ex (fun x =>
            forallb (fun er => ob_eqb (ob_of (load_path rf_go T (fst er) d)) (snd er)) (x_byext x)
-           && ob_eqb (ob_of (fill_default T)) (x_fill x))
+           && ob_eqb (ob_of (fill_default T)) (x_fill x)
+           && forallb (fun er => ob_eqb (ob_of (load_path rf_go T (fst er) d)) (snd er)) (x_depr x)
+           && forallb (fun p => let '(_, raw, _, on) := p in
+                                match env with
+                                | Some e => ostr_eqb on (Some (expand_str e raw))
+                                | None => true
+                                end) (x_props x)
+           && opt_all (x_info x) (fun i => oinfo_eqb i (info_fields T fi_empty))
+           && lc_agrees (info_fields T fi_empty) d (x_lc x)
+           && match d2 with Some d' => lc_agrees (info_fields T fi_empty) d' (x_lc2 x) | None => true end)
     | CaseStd T d mp st =>
       ob_eqb (ob_of (um_top T (Some (shape rf_go FJson d)))) mp
       && ob_eqb (ob_of (std_top T (Some (shape rf_go FJson d)))) st
+    | CaseShape T d d2 info lc lc2 load load2 =>
+      opt_all info (fun i => oinfo_eqb i (xinfo T))
+      && lc_agrees (xinfo T) d lc
+      && match d2 with Some d' => lc_agrees (xinfo T) d' lc2 && (negb (xkeys_distinct T) || xtr_top T d d') | None => true end
+    | CaseBad T load =>
+      (* a malformed text: the front end (or jsonx) fails, [conf_load T None] *)
+      ob3_eqb load (let r := ob_of (conf_load T None) in mkOb3 r r r)
     end
   else true.
 
@@ -148,14 +210,14 @@ Definition ob3_nopanic (a : ob3) : bool := negb (ob_panics (oj a) || ob_panics (
      environment; with UseEnv the three formats still agree;
    - when mapping.UnmarshalJsonBytes and encoding/json both accept, the values are equal;
    - nothing panics. *)
-Definition prop_ok (c : case) : bool :=
+Definition prop_gen (same3 : ob3 -> bool) (c : case) : bool :=
   if in_scope c then
     match c with
     | CaseLoad T d d2 env mid mid2 midenv load load2 envon envoff ex =>
-      ob3_nopanic load && ob3_same load && mapkeys_kept d (oj load)
+      ob3_nopanic load && same3 load && mapkeys_kept d (oj load)
       && opt_all load2 (fun l => ob3_nopanic l && ob3_eqb load l)
       && opt_all envoff (fun l => ob3_eqb load l)
-      && opt_all envon (fun l => ob3_nopanic l && ob3_same l)
+      && opt_all envon (fun l => ob3_nopanic l && same3 l)
       && opt_all ex (fun x =>
            (* the loader is chosen by the lower-cased extension; an unknown extension is an error;
               MustLoad agrees with Load; FillDefault does not panic *)
@@ -169,15 +231,37 @@ Definition prop_ok (c : case) : bool :=
                       (x_must x)
            && negb (ob_panics (x_fill x))
            (* Load(.., UseEnv()) = expanding the file's text, then loading it *)
-           && match envon, x_envref x with Some l, Some r => ob3_eqb l r | _, _ => true end)
+           && match envon, x_envref x with Some l, Some r => ob3_eqb l r | _, _ => true end
+           (* the deprecated wrappers behave like the functions they wrap *)
+           && forallb (fun er =>
+                         ob_eqb (snd er)
+                                (match fmt_of_ext (fst er) with
+                                 | Some FJson => oj load | Some FYaml => oy load | Some FToml => ot load
+                                 | None => OErr
+                                 end)) (x_depr x)
+           (* LoadProperties without UseEnv returns every value as written, whatever the
+              environment and whatever was loaded with UseEnv before *)
+           && forallb (fun p => let '(_, raw, off, _) := p in ostr_eqb off (Some raw)) (x_props x)
+           (* the conf layer itself is case-insensitive: the unmarshaller is handed the SAME map
+              for the document and for its re-cased twin *)
+           && match x_lc x, x_lc2 x with Some a, Some b => jv_eqb a b | _, _ => true end)
     | CaseStd T d mp st =>
       match mp, st with
       | OOk v, OOk w => gval_eqb v w
       | OPanic, _ | _, OPanic => false
       | _, _ => true
       end
+    | CaseShape T d d2 info lc lc2 load load2 =>
+      opt_all load (fun l => obx3_nopanic l && obx3_same l)
+      && match load, load2 with Some l, Some l' => obx3_nopanic l' && obx3_eqb l l' | _, _ => true end
+      && match lc, lc2 with Some a, Some b => jv_eqb a b | _, _ => true end
+    | CaseBad T load =>
+      (* the verdict for a text that is not a document at all is an error, never a panic or a success *)
+      ob3_eqb load (mkOb3 OErr OErr OErr)
     end
   else true.
+
+Definition prop_ok : case -> bool := prop_gen ob3_same.
 
 Definition model_obs (c : case) :=
   match c with
@@ -188,4 +272,9 @@ Definition model_obs (c : case) :=
   | CaseStd T d _ _ =>
     (mkOb3 (ob_of (um_top T (Some (shape rf_go FJson d)))) (ob_of (std_top T (Some (shape rf_go FJson d)))) OErr,
      None, None, (JNull, JNull))
+  | CaseShape T d d2 _ _ _ _ _ =>
+    (mkOb3 OErr OErr OErr, None, None,
+     (match lc_model (xinfo T) d with Some j => j | None => JNull end,
+      match d2 with Some d' => match lc_model (xinfo T) d' with Some j => j | None => JNull end | None => JNull end))
+  | CaseBad T _ => (let r := ob_of (conf_load T None) in mkOb3 r r r, None, None, (JNull, JNull))
   end.
